@@ -25,6 +25,7 @@ from common import Channel
 import c04_gen as G
 import c04_impl as I
 import c04_walk as W
+import c04_synth as S
 
 PROP = "C04"
 CLAIM = True
@@ -33,7 +34,7 @@ MANIFEST_ENTRY = {
     "level_text": (
         "Lean 4 proof over an executable model of dashlive/mpeg/mp4.py: big-endian primitives, box header "
         "(32-bit, 64-bit largesize, uuid), FullBox, generic containers and the field codecs of ftyp/styp, mfhd, "
-        "tfhd, tfdt, trun, saiz, saio, senc/PIFF, tenc, pssh, mehd, trex, sidx, emsg: decode(encode x) = x for all "
+        "tfhd, tfdt, trun, saiz, saio, senc/PIFF, tenc, pssh, mehd, trex, sidx, emsg, dec3: decode(encode x) = x for all "
         "legal field values and encode(decode bs) = bs for every accepted input (decode_encode_X / "
         "encode_decode_X), tree_roundtrip for forests of any shape, encode_size/encode_children_fill, "
         "tfdt_version_switch, edits_preserve_sizes + encode_after_edits for every finite edit sequence, "
@@ -41,8 +42,8 @@ MANIFEST_ENTRY = {
         "directions (model-encoded boxes parsed by the real library in eager/lazy and r/rw mode; fixture boxes "
         "decoded by the model), and an independent box walker evaluates the property text on the real library."),
     "level_note": (
-        "Partial: ~30 registered classes of the moov interior (mvhd, tkhd, mdhd, hdlr, stsd and sample entries, "
-        "avcC, hvcC, esds, dec3/dac3, btrt, pasp, mime, vttC, schm, frma) and the JSON form are opaque to the "
+        "Partial: ~26 registered classes of the moov interior (mvhd, tkhd, mdhd, hdlr, stsd and sample entries, "
+        "avcC, hvcC, esds, dac3, btrt, pasp, mime, vttC, schm, frma) and the JSON form are opaque to the "
         "model and covered by differential testing only; post_encode fix-ups (trun data_offset, saio offset) are "
         "not modelled and are exercised on consistent fragments. Trusted: Lean kernel, the correspondence "
         "harness and compiled driver, the walker. Known findings: see known_findings.json (C04)."),
@@ -76,18 +77,24 @@ class _Timeout(Exception):
 
 
 def _alarm(*_):
-    raise _Timeout("no result after 5 s (non-termination)")
+    raise _Timeout("no result within the time limit (non-termination)")
 
 
 def guarded(fn, *a, **kw):
-    """run a call into the library with a watchdog (a hang is a failure, not a harness crash)"""
-    old = signal.signal(signal.SIGALRM, _alarm)
-    signal.alarm(5)
-    try:
-        return fn(*a, **kw)
-    finally:
-        signal.alarm(0)
-        signal.signal(signal.SIGALRM, old)
+    """run a call into the library with a watchdog (a hang is a failure, not a harness crash).
+    A first time-out is retried once with a long limit, so that a busy machine cannot look
+    like a library that does not terminate."""
+    for limit in (5, 90):
+        old = signal.signal(signal.SIGALRM, _alarm)
+        signal.alarm(limit)
+        try:
+            return fn(*a, **kw)
+        except _Timeout:
+            if limit == 90:
+                raise
+        finally:
+            signal.alarm(0)
+            signal.signal(signal.SIGALRM, old)
 
 
 def fixture_files():
@@ -250,7 +257,7 @@ def shrink_forest(forest, ctx, still_fails):
 
 DIFF_ONLY = {  # registered classes the model keeps opaque (differential testing only)
     "mvhd", "tkhd", "mdhd", "hdlr", "stsd", "avc1", "avc3", "hev1", "hvc1", "encv", "mp4a", "enca", "ec-3",
-    "ac-3", "stpp", "wvtt", "avcC", "hvcC", "esds", "dec3", "dac3", "btrt", "pasp", "mime", "vttC", "schm", "frma",
+    "ac-3", "stpp", "wvtt", "avcC", "hvcC", "esds", "dac3", "btrt", "pasp", "mime", "vttC", "schm", "frma",
 }
 
 
@@ -425,7 +432,7 @@ def ch_boxcodec(ctx):
         "distinct non-mdat fixture box. The Layer-C oracle (parse->encode == input, eager == lazy field values, "
         "JSON round trip) runs on the same inputs and on the whole fixture files."))
     rng = ctx.rng("boxcodec")
-    n = ctx.scale(700, 22000)
+    n = ctx.scale(700, 15000)
     cases = [G.gen_forest(rng, ctx.thorough and i % 7 == 0) for i in range(n)]
     try:
         outs = encode_cases(cases)
@@ -650,7 +657,7 @@ def ch_boxedit(ctx):
         "position of every box after encode(), output bytes. Non-trivial = distinct case with >= 2 edits. Oracle: "
         "independent walker over the output (sizes fit, children fill parents, attributes equal the walker's)."))
     rng = ctx.rng("boxedit")
-    n = ctx.scale(250, 9000)
+    n = ctx.scale(250, 7000)
     cases = []
     for i in range(n):
         root, c = gen_edit_case(rng, ctx.thorough and i % 5 == 0)
@@ -879,10 +886,15 @@ INT_FIELDS = {  # class name -> [(attribute, bits)] assigned at random before th
 
 def ch_classes_diff(ctx):
     ch = Channel("classes-diff", rule=(
-        "TESTING ONLY (no Lean statement): every box of a registered class that the model keeps opaque, taken from "
-        "the fixture files: parse -> encode == bytes (eager and lazy), toJSON -> fromJSON -> encode == bytes, and "
-        "after assigning random boundary values to its integer fields: encode -> parse -> encode is stable and the "
-        "assigned values are read back. Non-trivial = distinct (class, bytes) / distinct mutated value set"))
+        "TESTING ONLY (no Lean statement): (a) every box of a registered class that the model keeps opaque, taken "
+        "from the fixture files: parse -> encode == bytes (eager and lazy), toJSON -> fromJSON -> encode == bytes; "
+        "(b) after assigning random boundary values to its integer fields: encode -> parse -> encode is stable and "
+        "the assigned values are read back; (c) boxes of those classes synthesised byte by byte from the "
+        "specifications (harness/c04_synth.py) in every optional/conditional layout - version-dependent widths, "
+        "flag-gated fields, trailing blocks recognised by remaining bits/bytes (dec3 extension, avcC high-profile "
+        "tail), 0/1/many repeated structures, descriptor trees with padded lengths, whole moov trees - through the "
+        "full Layer-C oracle (parse -> encode == input in eager/lazy x r/rw, eager == lazy field values, JSON round "
+        "trip). Non-trivial = distinct (class, bytes) / distinct mutated value set"))
     rng = ctx.rng("classes")
     m = I.mp4()
     seen = set()
@@ -954,7 +966,25 @@ def ch_classes_diff(ctx):
                         ch.oracle_failures.append({"kind": "roundtrip", "data": base.hex(), "iv": iv, "class": name,
                                                    "failures": [{"clause": "roundtrip", "what": f"exception {type(e).__name__}: {str(e)[:100]}"}],
                                                    "regions": sorted(regions(base))})
-    ch.sample({"distinct boxes": len(seen)})
+    ch.sample({"distinct fixture boxes": len(seen)})
+    # (c) every optional/conditional layout of those classes, synthesised from the specifications
+    srng = ctx.rng("synth")
+    for _ in range(ctx.scale(700, 6000)):
+        if len(ch.oracle_failures) >= 20:
+            break
+        label, data = S.synth(srng)
+        ch.evaluations += 1
+        ch.count("synth:" + label)
+        ch.nontrivial.add((label, data))
+        try:
+            W.walk(data)
+        except W.WalkError as e:
+            ch.errors.append(f"synthesiser produced an inconsistent {label}: {e}")
+            continue
+        fails = oracle_roundtrip(data, 8)
+        if fails:
+            ch.oracle_failures.append(failure(fails, data, 8, {"class": label}))
+        ch.sample({"synthesised": label, "bytes": data.hex()[:160]}, limit=3)
     return ch
 
 
